@@ -24,7 +24,7 @@ pub fn run_marathons(p: &Params, prop: &'static str) -> Outcome {
     let gen = "marathon";
     let on_obs = ["C01", "C02", "C03", "C16", "C19"].contains(&prop);
     let on_vec = ["C05", "C06", "C07", "C17"].contains(&prop);
-    let n = p.n(if on_obs { 24 } else { 16 }, 200);
+    let n = p.n(if on_obs { 24 } else { 20 }, 200);
     p.cases(gen, n, move |i, out| {
         let mut rng = Rng::new(mix(seed, mix(hash_of(&gen), i)));
         let case = json!({"gen": gen, "case": i, "seed": seed});
@@ -67,6 +67,22 @@ pub fn run_marathons(p: &Params, prop: &'static str) -> Outcome {
                 h.ops.splice(at..at, storm);
                 out.ev.count("marathon_quiet_spells_of_66000_or_more_pending_polls");
             }
+            if i % 4 == 3 && shared {
+                // tens of thousands of clone / drop and upgrade / drop cycles on one observable
+                let mut storm: Vec<OOp> = vec![OOp::Downgrade(0)];
+                for _ in 0..rng.range(66_000, 90_000) {
+                    if rng.chance(1, 4) {
+                        storm.push(OOp::Upgrade(0));
+                    } else {
+                        storm.push(OOp::Clone(0));
+                    }
+                    storm.push(OOp::DropOwner(1));
+                }
+                let at = rng.below(h.ops.len() / 100 + 1);
+                h.ops.truncate(at + 3000);
+                h.ops.splice(at..at, storm);
+                out.ev.count("marathon_storms_of_66000_or_more_handle_creations");
+            }
             out.ev.add("marathon_operations", h.ops.len() as u64);
             if i % 2 == 0 {
                 judge_obs::<SyncFl>(prop, &h, &case, out, &|f| f.ready >= 1000);
@@ -89,7 +105,9 @@ pub fn run_marathons(p: &Params, prop: &'static str) -> Outcome {
                 drop_all_pm: 0,
                 init_max: 5,
             };
-            let h = gen_vec_history(&mut rng, &g);
+            let mut h = gen_vec_history(&mut rng, &g);
+            // subscribers live as long as the vector (a stream that has kept up for tens of thousands of messages)
+            h.ops.retain(|o| !matches!(o, crate::engine_vec::HOp::DropSub(_) | crate::engine_vec::HOp::DropAll));
             out.ev.add("marathon_operations", h.ops.len() as u64);
             judge_vec(prop, &h, case, out, &|f: &Facts| f.msgs >= 1000);
         } else {
@@ -110,17 +128,32 @@ pub fn run_marathons(p: &Params, prop: &'static str) -> Outcome {
                 lazy_only: false,
                 far_runs: false,
             };
-            let nst = rng.range(1, 2);
-            let chain: Vec<Stage> = (0..nst)
-                .map(|_| loop {
-                    let s = gen_stage(&mut rng, ALL_PKS, 6);
-                    // (the known findings F4 / F6 end or resynchronise a history; a marathon wants to run on)
-                    if !(s.is_tail() && s.dynamic()) && !s.is_sort() {
-                        break s;
-                    }
-                })
-                .collect();
-            let batched = rng.chance(1, 2);
+            let long = i % 4 == 2;
+            let (chain, batched): (Vec<Stage>, bool) = if long {
+                // more than 2^16 diffs through ONE adapter object of a known kind (plain stream first)
+                use crate::engine_adp::{Kind, PK};
+                let k = (i / 4) % 5;
+                let st = match k {
+                    0 => Stage::Lim { kind: Kind::Tail, pk: PK::Static, n: 3, queue: false },
+                    1 => Stage::Lim { kind: Kind::Skip, pk: PK::DynInit, n: 2, queue: true },
+                    2 => Stage::Lim { kind: Kind::Head, pk: PK::Static, n: 3, queue: false },
+                    3 => Stage::Filter(0b0110),
+                    _ => Stage::SortByKey,
+                };
+                (vec![st], (i / 20) % 2 == 1)
+            } else {
+                let nst = rng.range(1, 2);
+                let chain = (0..nst)
+                    .map(|_| loop {
+                        let s = gen_stage(&mut rng, ALL_PKS, 6);
+                        // (the known findings F4 / F6 end or resynchronise a history; a marathon wants to run on)
+                        if !(s.is_tail() && s.dynamic()) && !s.is_sort() {
+                            break s;
+                        }
+                    })
+                    .collect();
+                (chain, rng.chance(1, 2))
+            };
             let h = gen_adp_history(&mut rng, chain, batched, &g);
             out.ev.add("marathon_operations", h.ops.len() as u64);
             judge_adp(prop, &h, &p.known, case, out, &|f: &AFacts| f.diffs_in >= 1000);
